@@ -39,6 +39,24 @@ def instances(tier):
         L.append(Inst("sse2-combine-%s-w%d-off%d" % (nm, w, off), "C02/sse2_comb.c", {"OP": op, "CA": ca, "MASKED": mk, "W": w, "OFF": off},
                       simd=True, exclude=EX, models=("env_stubs.c", "x86_builtins.c"), unwind=70, objbits=12, timeout=2400 if tier == "thorough" else 900,
                       desc={"what": "SSE2 combiner (real pixman-sse2.c, installed by the real constructor) vs the C combiner: bit-identical pixels, nothing outside [0,w); pixels symbolic; head/vector/tail split by width and alignment offset", "routine": "sse2_combine_" + nm}))
+    fb = [("fill-8bpp", {"BLT": 0, "BPPV": 8, "X": 3, "Y": 1, "WD": 41, "HT": 1}), ("fill-24bpp-refused", {"BLT": 0, "BPPV": 24, "X": 1, "Y": 0, "WD": 3, "HT": 1}),
+          ("blt-8bpp-refused", {"BLT": 1, "BPPV": 8, "X": 0, "Y": 0, "WD": 4, "HT": 1, "SX": 0, "SY": 0})]
+    if tier == "thorough":
+        fb += [("fill-32bpp", {"BLT": 0, "BPPV": 32, "X": 1, "Y": 0, "WD": 10, "HT": 2}), ("fill-16bpp", {"BLT": 0, "BPPV": 16, "X": 1, "Y": 0, "WD": 21, "HT": 2}),
+               ("blt-32bpp", {"BLT": 1, "BPPV": 32, "X": 1, "Y": 0, "WD": 9, "HT": 2, "SX": 2, "SY": 0}), ("blt-16bpp", {"BLT": 1, "BPPV": 16, "X": 3, "Y": 1, "WD": 19, "HT": 1, "SX": 0, "SY": 0})]
+    for nm, d in fb:
+        L.append(Inst("sse2-" + nm, "C02/fillblt.c", d, simd=True, exclude=EX, models=("env_stubs.c", "x86_builtins.c"), unwind=70, objbits=12,
+                      timeout=2400 if tier == "thorough" else 900, checks=["--bounds-check", "--pointer-check"],
+                      desc={"what": "fill/blt through the chain with the SSE2 level: identical to the C chain / exactly the rectangle copied, or FALSE with nothing changed; contents symbolic, geometry concrete"}))
+    if tier == "thorough":
+        EXA = ("pixman-implementation.c", "pixman-ssse3.c", "pixman-mmx.c")
+        for n, d in (("sse2_composite_add_8_8", TPL["fast_composite_add_8_8"]), ("sse2_composite_over_8888_8888", TPL["fast_composite_over_8888_8888"]),
+                     ("sse2_composite_over_8888_0565", TPL["fast_composite_over_8888_0565"]), ("sse2_composite_add_8888_8888", TPL["fast_composite_add_8888_8888"]),
+                     ("sse2_composite_copy_area", TPL["fast_composite_src_memcpy"])):
+            dd = dict(d); dd.update({"EXPECT_FUNC": None, "VP_REL": None, "WITH_SSE2": None, "W": 5})
+            L.append(Inst("diff-" + n, "C02/diff.c", dd, simd=True, exclude=EXA, models=("env_stubs.c", "x86_builtins.c"), unwind=20,
+                          unwindset=API_UNWINDSET + ("memcmp.0:40",), objbits=12, timeout=3000,
+                          desc={"what": "request served by this SSE2 composite routine under noop->sse2->fast->general vs general alone: bit-identical destination; 5x2 images, pixels symbolic", "routine": n}))
     return L
 
 
@@ -61,9 +79,9 @@ TEXT = ("Translation validation by bounded model checking: each selected routine
         "for a symbolic environment string, and chain assembly incl. 'wholeops' for a menu of settings.")
 NOTE = ("SSE2: the 22 unified/component-alpha combiners are reachable through models of the 20 GCC builtins pixman-sse2.c needs "
         "(models/x86_builtins.c, compared with the real instructions on 20000 vectors at the start of every run); 2 combiners at quick tier, 9 at "
-        "thorough; masked OVER-class combiners do not finish in 900 s. The SSE2 composite/scaling/fill/blt routines, SSSE3 and MMX (inline asm) "
-        "levels and CPU detection are NOT encoded - that part of the property is not claimed. C levels: 3x2 images, 8 routine templates.")
+        "thorough; masked OVER-class combiners do not finish in 900 s. sse2_fill/sse2_blt are compared with the C chain / the rectangle semantics (concrete geometry); five SSE2 composite routines run through the API differential at thorough tier (9-14 min each). "
+        "SSE2 scaling/bilinear routines, the SSSE3 and MMX (inline asm) levels and CPU detection are NOT encoded - that part of the property is not claimed. C levels: 3x2 images, 8 routine templates.")
 RULE = "C02 program = one fast-path routine compared against the general path; plus configuration instances."
 BOUNDS = {"images": "3x2 with padding", "routines": "8 of ~150 c_fast_paths entries (2 at quick tier)"}
-OUTSIDE = ["SSE2 composite, scaling, fill and blt routines; pixman-ssse3.c; pixman-mmx.c (inline asm)", "CPU feature detection (cpuid)", "fast-path table entries without a template", "widths beyond 3 pixels"]
+OUTSIDE = ["most SSE2 composite and all SSE2 scaling routines; pixman-ssse3.c; pixman-mmx.c (inline asm)", "CPU feature detection (cpuid)", "fast-path table entries without a template", "widths beyond 3 pixels"]
 ASSUMPTIONS = ["allocation succeeds", "getenv stub"]
